@@ -163,7 +163,7 @@ func OP_DIV_NUM_NUM_Handler(v *VM) {
 func OP_MOD_NUM_NUM_Handler(v *VM) {
 	rhs := v.Pop().Num().V
 	lhs := v.Pop().Num().V
-	v.Push(val.Num(float64(int64(lhs) % int64(rhs))))
+	v.Push(val.Num(val.NumMod(lhs, rhs)))
 }
 
 //goland:noinspection GoSnakeCaseUsage
